@@ -43,6 +43,33 @@ def register(reg):
           "C03.else-the-default-path-at-the-root": "implies(not truthy(self._Config__keyfile) and not truthy(self._parent), result == default_keyfile_path())",
           "C13.read-only": "heap_unchanged() and fs_same()",
       })
+    # ---------------------------------------------------------------- dotted-path assignment (C16)
+    from contracts.core import setvalue_clauses
+    ens, rai = setvalue_clauses("key")
+    SUB = "old(get(self._data, path_head(key)))"
+    TAIL = "path_tail(key)"
+    TWO = ("'.' in key and len(%s) > 0 and not ('.' in %s) and old(has(self._data, path_head(key))) and typeis(%s, 'ref:Config')"
+           " and (persistent(old(fieldof(self, path_head(key)))) or typeis(old(fieldof(self, path_head(key))), 'ref:Schema|ref:ConfigTypeField'))" % (TAIL, TAIL, SUB))
+    C("core:Config.__setitem__", params={"key": "str", "value": "any"}, returns="any",
+      modifies=["dict:self._data", "set:self._default_value_keys", "dict:self._fields", "$map@*", "$dom@*", "$len@*", "$keys@*", "$pos@*", "$items@*"] + KEYFILE_STATE + ADOPT,
+      assumes={"A.acyclic": "not inside(value, self)", "A.inside-reflexive": "inside(value, value)",
+               "A.acyclic-state": "implies(has(self._data, path_head(key)), get(self._data, path_head(key)) is not self)"},
+      ensures=dict({"C16.plain-key-is-attribute-assignment:" + k.split(".", 1)[1]: "implies(%s, %s)" % (NODOT, v) for k, v in ens.items()},
+                   **{"C16.dotted-path-assigns-in-the-sub-configuration": "implies(%s and persistent(fieldof(%s, %s)), dict_is_upd(%s._data, %s, result) and set_is_discard(%s._default_value_keys, %s)"
+                                                                         " and (result is None or accepts(fieldof(%s, %s), result)))" % (TWO, SUB, TAIL, SUB, TAIL, SUB, TAIL, SUB, TAIL),
+                      "C16.dotted-path-leaves-this-level-alone": "implies(%s, dict_same(self._data) and set_same(self._default_value_keys))" % TWO}),
+      raises={"C16.plain-key-is-attribute-assignment:" + k.split(".", 1)[1]: "implies(%s, %s)" % (NODOT, v) for k, v in rai.items()})
+    # ---------------------------------------------------------------- command-line overrides (C16)
+    NS = "ns_dict(args)"
+    C("support:cmdline_args_override", params={"config": "ref:Config", "args": "ref:Namespace", "ignore": "none|str|ref:list"},
+      modifies=["$map@*", "$dom@*", "$len@*", "$keys@*", "$pos@*", "$items@*"] + KEYFILE_STATE + ADOPT,
+      assumes={"A.options-are-strings": 'forall("k:key", "implies(has(%s, k), typeis(k, \'str\'))")' % NS},
+      invariants={0: {"ignore-list": "typeis(ignore, 'ref:list') and implies(typeis(old(ignore), 'str'), seq_len(ignore) == 1 and seq_item(ignore, 0) == old(ignore)) and implies(typeis(old(ignore), 'ref:list') and truthy(old(ignore)), ignore is old(ignore))",
+                      "nothing-supplied-nothing-changed": 'implies(forall("k:key", "implies(has(%s, k), get(%s, k) is None)"), heap_unchanged() and fs_same())' % (NS, NS),
+                      "arguments-untouched": "dict_same(%s)" % NS}},
+      ensures={"C16.no-supplied-option-no-change": 'implies(forall("k:key", "implies(has(%s, k), get(%s, k) is None)"), heap_unchanged() and fs_same())' % (NS, NS),
+               "C16.arguments-untouched": "dict_same(%s)" % NS},
+      raises={"C16.arguments-untouched": "dict_same(%s)" % NS})
     C("support:is_value_defined", params={"config": "ref:Config", "key": "str"}, returns="bool", modifies=["fresh", "ncalls"],
       ensures={
           "C12.defined-means-not-marked-default": "implies(%s, result == (not has(config._default_value_keys, key)))" % NODOT,
